@@ -98,6 +98,16 @@ RAW = [
     ("g = (lambda v: list([v]))\ndef h(list): return g(list)\n", "h(e.a)"),
     # three levels
     ("def k(a): return len([a])\ndef g(len): return k(len) + len\ndef h(x): return g(x)\n", "h(e.a)"),
+    # closures made by one factory (they share their code), one calling the other
+    ("def mk(inner, k):\n    return (lambda v: inner(v) + k)\nbase = (lambda v: v * 2)\ng = mk(base, 1)\nh = mk(g, 10)\n", "h(e.a)"),
+    ("def mk(inner, k):\n    def step(v): return inner(v) + k\n    return step\ndef base(v): return v * 2\ng = mk(base, 1)\nh = mk(mk(g, 10), 100)\n",
+     "e.jets.Select(lambda j: h(j.pt))"),
+    # comprehensions with several for clauses inside a helper (kept as they are), followed by other uses of the names
+    # (what two for clauses lower to is not C05's or C06's subject: the comprehension's value is projected away)
+    ("def h(x): return ([1 for j in x.jets for t in j.tr], x.a)[1]\n", "(h(e), e.a, e.jets.Select(lambda j: j.pt))"),
+    ("def h(x, j): return (([1 for x in x.jets for t in x.tr], j)[1], x.a)\n", "(h(e, e.a), e.b)"),
+    ("def g(x): return ([1 for j in x.jets for x in j.tr], x.b)[1]\ndef h(x, j): return (g(x), x.a, j)\n", "(h(e, e.b), e.a)"),
+    ("def h(j): return ([1 for x in j.jets for t in x.tr], j.a)[1]\n", "e.jets.Select(lambda x: (h(e), x.pt))"),
     # starred / double-starred arguments cannot be bound to single parameters
     ("def h(x): return x\n", "h(*[e.a])"),
     ("def h(x, y): return (y, x)\n", "h(*[e.a, e.b])"),
